@@ -259,7 +259,8 @@ func (s *Sess) builder(op *Op) *ecs.Builder {
 	if op.Rel != nil {
 		key += fmt.Sprint(*op.Rel)
 	}
-	if s.step%3 != 0 && op.Ill == "" {
+	// (rejected calls may go through a Builder that worked before as well; Builders made for them are not kept)
+	if s.step%3 != 0 || op.Ill != "" {
 		if b, ok := s.builders[key]; ok {
 			s.Cov.N["builder_reused"]++
 			return b
@@ -722,6 +723,12 @@ func (s *Sess) call(op *Op, out *Outcome) {
 			w.GetUnchecked(entOf(*op.E), s.IDs[op.ID])
 		} else {
 			w.Get(entOf(*op.E), s.IDs[op.ID])
+		}
+	case "MaskOf":
+		if op.Alt {
+			w.Ids(entOf(*op.E))
+		} else {
+			w.Mask(entOf(*op.E))
 		}
 	case "Has":
 		if op.Alt {
